@@ -8,6 +8,7 @@ import RFV.Model.Avx
 import RFV.Model.Spec
 import RFV.Model.Validate
 import RFV.Model.Fp
+import RFV.Model.Cache
 
 open RFV
 
@@ -48,7 +49,43 @@ def answerFp (fields : List String) : String :=
     | _, _, _, _ => "bad-op"
   | _ => "bad-op"
 
+def fmtKeys (ks : List Nat) : String := "[" ++ " ".intercalate (ks.map toString) ++ "]"
+
+/-- `hist;<scalar|sse|avx|avx-noavx2>;<f32|f64>;len:dir,len:dir,…;cand cand …`
+answer per step: `recipe-or-plan | len inplace oop immut | fwd keys | inv keys`, steps joined by ` # ` -/
+def answerHist (fields : List String) : String :=
+  match fields with
+  | [_, planner, ty, steps, cands] =>
+    match parseTy ty with
+    | none => "bad-op"
+    | some ty =>
+      let kind : PlannerKind := match planner with
+        | "scalar" => .scalar | "sse" => .sse | "avx" => .avx true | _ => .avx false
+      let reqs : List (Nat × Bool) := (steps.splitOn ",").filterMap (fun (st : String) =>
+        match st.splitOn ":" with
+        | [n, d] => n.toNat?.map (fun n => (n, d == "inv"))
+        | _ => none)
+      let cs : List Nat := (cands.splitOn " ").filterMap (fun (x : String) => x.toNat?)
+      let restrict (ks : List Nat) : List Nat := match kind with
+        | .avx _ => ks.filter (fun k => cs.contains k)
+        | _ => ks
+      let rec go (s : PlannerState) : List (Nat × Bool) → List String
+        | [] => []
+        | (len, inv) :: rest =>
+          let planText : String := match kind with
+            | .scalar => fmtExcept ((planScalar len).map Recipe.text)
+            | .sse => fmtExcept ((planSse len).map Recipe.text)
+            | .avx a2 => fmtExcept ((avxPlanFft ty a2 (s.cache inv).contains len).map AvxPlan.text)
+          match planStep kind ty s len inv with
+          | .error e => [s!"{planText} | ERR {e}"]
+          | .ok (inst, s') =>
+            let sp := fmtExcept ((inst.spec ty).map Spec.text)
+            s!"{planText} | {sp} | {fmtKeys (restrict s'.fwd.keys)} | {fmtKeys (restrict s'.inv.keys)}" :: go s' rest
+      " # ".intercalate (go PlannerState.empty reqs)
+  | _ => "bad-op"
+
 def answer (line : String) : String :=
+  if line.startsWith "hist;" then answerHist (line.trimAscii.toString.splitOn ";") else
   if line.startsWith "fp;" then answerFp (line.trimAscii.toString.splitOn ";") else
   match line.trimAscii.toString.splitOn " " with
   | ["pf", n] =>
